@@ -4,7 +4,7 @@
 From Coq Require Import List NArith ZArith Bool.
 From Coq Require Import Strings.Byte.
 From NfpmV Require Import Lib.Bytes Model.Payload Model.Mtree Spec.C03.
-From NfpmV Require Import Proofs.C03Proofs Proofs.MtreeProofs.
+From NfpmV Require Import Proofs.C03Proofs Proofs.MtreeProofs Model.DebLists Proofs.DebListsProofs.
 Import ListNotations.
 
 Theorem C03_md5sums_one_line_per_regular_file : forall payload d n,
@@ -58,3 +58,9 @@ Theorem C03_mtree_unquoted_blank_refuted :
   /\ mtree_read (mtree_text [blank_entry]) = Some [blank_entry].
 Proof. exact unquoted_blank_does_not_read_back. Qed.
 Print Assumptions C03_mtree_unquoted_blank_refuted.
+
+(* ---- deb md5sums as text (Model/DebLists.v): "<digest>  <name>" lines ---- *)
+Theorem C03_md5sums_text_roundtrip : forall ps,
+  Forall (fun p => wf_md5 p = true) ps -> md5sums_read (md5sums_text ps) = Some ps.
+Proof. exact md5sums_roundtrip. Qed.
+Print Assumptions C03_md5sums_text_roundtrip.
